@@ -53,7 +53,11 @@ Record wst := { w_up : bool; w_swarm : list N; w_kept : list N }.
 Definition w0 : wst := {| w_up := false; w_swarm := []; w_kept := [] |}.
 Definition apply_ev (s : wst) (e : ev) : wst :=
   match e with
-  | EStart _ ks => {| w_up := w_up s; w_swarm := w_swarm s; w_kept := unionN (w_kept s) ks |}
+  | EStart _ ks =>
+      (* a key counts as given when StartProviding is called while the network is up (a call
+         made during an outage returns nil, stores the key, and the key is then advertised
+         at its slot of the schedule only: documented as "returns an error when Offline") *)
+      if w_up s then {| w_up := w_up s; w_swarm := w_swarm s; w_kept := unionN (w_kept s) ks |} else s
   | EStop _ ks => {| w_up := w_up s; w_swarm := w_swarm s; w_kept := minusN (w_kept s) ks |}
   | ENet _ b => {| w_up := b; w_swarm := w_swarm s; w_kept := w_kept s |}
   | ESwarm _ l => {| w_up := w_up s; w_swarm := l; w_kept := w_kept s |}
